@@ -16,5 +16,6 @@ mod build {
 }
 
 fn main() {
+    println!("cargo::rustc-check-cfg=cfg(gluon_verif)");
     build::main();
 }
